@@ -2,6 +2,7 @@ package main
 
 import (
 	"fmt"
+	"go/token"
 	"go/types"
 	"path"
 	"sort"
@@ -201,7 +202,7 @@ func (x *Exec) intrinsic(fn *ssa.Function, args []Val, site string) Val {
 		return cbool(false)
 	case "Catch":
 		return x.catch(args[0].(FuncV))
-	case "Gate":
+	case "Gate", "Barrier":
 		x.mainGor()
 		x.yield()
 		return nil
@@ -476,6 +477,26 @@ func (x *Exec) stub(fn *ssa.Function, args []Val, site string) (Val, bool) {
 	case "(*sync.Mutex).Unlock", "(*sync.RWMutex).Unlock", "(*sync.RWMutex).RUnlock":
 		x.muUnlock(args[0].(PtrV).C)
 		return nil, true
+	// ---- sync/atomic: each operation is one atomic visible operation (and a synchronisation point)
+	case "sync/atomic.AddInt64", "sync/atomic.AddInt32", "(*sync/atomic.Int64).Add", "(*sync/atomic.Int32).Add":
+		x.visible()
+		c := x.atomicCell(args[0])
+		old := c.V.(BV)
+		nv := x.binop(token.ADD, old, args[1], types.Typ[types.Int64], nil).(BV)
+		c.V = nv
+		x.hbAtomic(c)
+		return nv, true
+	case "sync/atomic.LoadInt64", "sync/atomic.LoadInt32", "(*sync/atomic.Int64).Load", "(*sync/atomic.Int32).Load":
+		x.visible()
+		c := x.atomicCell(args[0])
+		x.hbAtomic(c)
+		return c.V, true
+	case "sync/atomic.StoreInt64", "sync/atomic.StoreInt32", "(*sync/atomic.Int64).Store", "(*sync/atomic.Int32).Store":
+		x.visible()
+		c := x.atomicCell(args[0])
+		c.V = args[1]
+		x.hbAtomic(c)
+		return nil, true
 	// ---- sort.Slice runs from real stdlib SSA; only the unsafe reflectlite bits are intrinsic
 	case "internal/reflectlite.ValueOf":
 		iv := args[0].(IfaceV)
@@ -621,6 +642,35 @@ func (x *Exec) stub(fn *ssa.Function, args []Val, site string) (Val, bool) {
 		return r, true
 	}
 	return nil, false
+}
+
+// atomicCell: the int cell behind an atomic operand (*int64 or *atomic.Int64)
+func (x *Exec) atomicCell(p Val) *Cell {
+	c := p.(PtrV).C
+	if c == nil {
+		panic(panicV{msg: "atomic operation on nil pointer"})
+	}
+	for {
+		sv, ok := c.V.(*StructV)
+		if !ok {
+			return c
+		}
+		c = sv.F[len(sv.F)-1] // atomic.Int64{_ noCopy; _ align64; v int64}
+	}
+}
+
+func (x *Exec) hbAtomic(c *Cell) {
+	if !x.opts.Races || len(x.gors) < 2 {
+		return
+	}
+	vc := x.atomVC[c]
+	if vc == nil {
+		vc = vclock{}
+		x.atomVC[c] = vc
+	}
+	x.cur.vc.join(vc)
+	vc.join(x.cur.vc)
+	x.cur.vc[x.cur.id]++
 }
 
 // visible marks a visible operation of the interleaving discipline.
